@@ -2,6 +2,7 @@ import Dawn.Proofs.PickleTop
 import Dawn.Proofs.PickleFuel
 import Dawn.Proofs.PickleCanon
 import Dawn.Proofs.PickleEnv
+import Dawn.Proofs.PickleStream
 /-!
 # C07 — the pickle codec round-trips every value exactly;  C15 — decoding arbitrary bytes never crashes
 
@@ -43,6 +44,25 @@ theorem C07_roundtrip (cfgD : DecCfg) (pickler : Bool) (g : Graph) (bs : Bytes)
   simp only [Graph.sizesOK, Bool.and_eq_true, decide_eq_true_eq, List.all_eq_true] at hs
   exact roundtrip_bytes _ rfl g
     ⟨⟨hb, fun i => by rw [hp]; exact parseDecimal_intText i⟩, hh, hk, hs.2, hs.1.1⟩ hs.1.2 bs h
+
+/-- C07 for a stream: several values written by ONE Encoder (`encodeStream`: memo and id counter carried from call to
+call, as `Encoder.memo` / `Encoder.next` are) and read back by ONE Decoder with the same number of `Decode` calls
+(`decodeStream`: memo, stack and heap carried over) come back as the values written, including the sharing ACROSS the
+values — a container of an earlier value that occurs again in a later one is the same object. -/
+theorem C07_roundtrip_stream (cfgD : DecCfg) (pickler : Bool) (g : MGraph) (bs : Bytes)
+    (hb : cfgD.oldBinint2 = false) (hp : cfgD.parseInt = parseDecimal) (hh : HostAccepts cfgD g.heap)
+    (hk : g.heap.keysOK = true) (hl : g.heap.length < 4294967296) (ho : g.heap.all Obj.sizeOK = true)
+    (hr : g.roots.all Val.sizeOK = true)
+    (h : encodeStream { pickler := pickler } g = some bs) :
+    decodeStream cfgD g.roots.length {} bs [] = .ok g.roots g.heap := by
+  simp only [List.all_eq_true] at ho hr
+  exact roundtrip_stream _ rfl g ⟨⟨hb, fun i => by rw [hp]; exact parseDecimal_intText i⟩, hh, hk, ho, hl⟩ hr bs h
+
+/-- non-vacuity: `l = [1, l]` written, then `"x"`, then `l` again: the third value read back is the first one -/
+example : encodeStream {} ⟨[.list [.atom (.int 1), .ref 0]], [.ref 0, .atom (.str [0x78]), .ref 0]⟩ =
+    some [0x5d, 0x94, 0x28, 0x4b, 1, 0x68, 0, 0x65, 0x2e, 0x8c, 1, 0x78, 0x2e, 0x68, 0, 0x2e] := by decide
+/-- and a Decoder that has NOT seen the first value cannot resolve the reference of the third (the contract is per pair) -/
+example : decodeStream {} 1 {} [0x68, 0, 0x2e] [] = .err 0 .invalidId := by decide
 
 /-- C07, consequence: two values that differ never decode to equal values -/
 theorem C07_injective (cfgD : DecCfg) (p₁ p₂ : Bool) (g₁ g₂ : Graph) (b₁ b₂ : Bytes)
